@@ -7,6 +7,7 @@ Oracle 2 (the statement's own): after a complete pass the tee target holds what 
 function writes for the same table and arguments into a target of the same kind.
 """
 import contextlib
+import csv
 import io
 import itertools
 import logging
@@ -27,7 +28,8 @@ RULE = ('state = (table, wrapper, arguments, target kind, pass pattern). Tables:
         'range over None, int, float, text, non-ASCII text, text with delimiter/quote/newline, empty text; rows '
         'of every length 0..width+1 (ragged, empty, over-long), header-only tables; rows given as tuples or lists; '
         'header fields that are not text (int, float, None, bool): the header must come through type-faithfully too. '
-        'tee*: every table x write_header / encoding / dialect / template, prologue, epilogue / caption, '
+        'tee*: every table x write_header / encoding / dialect (parameter triples, dialect= by registered name and as a '
+        'Dialect subclass, single format parameters on their own - for teecsv and teetsv alike) / template, prologue, epilogue / caption, '
         'index_header, truncate, lineterminator, tr_style, td_styles / pickle protocol; errors= axis for teecsv, '
         'teetsv, teetext, teehtml: encoding in {ascii, latin-1} x errors in {strict, replace, ignore, xmlcharrefreplace, '
         'backslashreplace} x tables (<= 2 rows) whose cells / header / prologue / caption hold text the codec cannot '
@@ -36,7 +38,7 @@ RULE = ('state = (table, wrapper, arguments, target kind, pass pattern). Tables:
         'rest; two complete passes, and on MemorySource every abandoned pass followed by a complete one (quick: '
         'plain configurations only). progress/log_progress x prefix in {absent, empty, plain, with %, %-format '
         'directives, {}-format fields, non-ASCII} x report sink given / default (stderr, captured) x logger given / '
-        'default x level x '
+        'default x level x kind of the out= sink (StringIO, object with write() only, object with write() + flush()) x '
         'batchsize in {1, 2, n, n+1, 1000}; clock; wrap; cache(n) for n in {None, 1..rows+1} x every sequence of '
         '1..3 passes each of which is complete or abandoned after any number of items. A state is non-trivial '
         'when the table has at least one data row (tee: the target then holds more than the header; cache: '
@@ -197,7 +199,47 @@ def csv_cfgs(tier):
                     out.append((op, kw))
     out.append(('teecsv', {}))
     out.append(('teetsv', {}))
+    # a dialect named explicitly (registered names, a Dialect subclass) and single format parameters on their
+    # own: tee* must resolve its defaults exactly as to* does, for the csv AND the tsv functions
+    for op in ('teecsv', 'teetsv'):
+        for name in ('excel', 'excel-tab', 'unix', 'class:semicolon'):
+            out.append((op, {'dialect': name}))
+        out.append((op, {'dialect': 'unix', 'quoting': 0}))
+        out.append((op, {'dialect': 'excel', 'write_header': False, 'encoding': 'utf-16'}))
+        for single in ({'delimiter': ';'}, {'quotechar': "'"}, {'quoting': 1}, {'lineterminator': '\n'},
+                       {'doublequote': False, 'escapechar': '\\'}, {'quoting': 3, 'escapechar': '\\'}):
+            out.append((op, dict(single)))
     return out
+
+
+class SemicolonDialect(csv.excel):
+    delimiter = ';'
+    quotechar = "'"
+
+
+DIALECT_CLASSES = {'class:semicolon': SemicolonDialect}
+
+
+class WriteOnlySink(object):
+    """The least print(file=...) needs: write() and nothing else."""
+
+    def __init__(self):
+        self.parts = []
+
+    def write(self, text):
+        self.parts.append(text)
+
+
+class FlushableSink(WriteOnlySink):
+    def __init__(self):
+        WriteOnlySink.__init__(self)
+        self.flushes = 0
+
+    def flush(self):
+        self.flushes += 1
+
+
+SINKS = {'writeonly': WriteOnlySink, 'flushable': FlushableSink}
 
 
 def text_cfgs(tier, hdr):
@@ -273,6 +315,8 @@ TO = {'teecsv': etl.tocsv, 'teetsv': etl.totsv, 'teepickle': etl.topickle, 'teet
 
 def _kwargs(op, kw, table):
     kw = dict(kw)
+    if kw.get('dialect') in DIALECT_CLASSES:
+        kw['dialect'] = DIALECT_CLASSES[kw['dialect']]
     if op == 'teehtml':
         if 'tr_style' in kw:
             kw['tr_style'] = STYLES[kw['tr_style']]
@@ -343,9 +387,10 @@ def _wrap(op, table, arg):
         if arg.get('out') == 'default':       # out=None: the view binds sys.stderr when it is built
             with contextlib.redirect_stderr(io.StringIO()):
                 return etl.progress(table, arg['batchsize'], arg.get('prefix', ''))
+        sink = SINKS[arg['out']]() if arg.get('out') in SINKS else io.StringIO()
         if 'prefix' not in arg:
-            return etl.progress(table, arg['batchsize'], out=io.StringIO())
-        return etl.progress(table, arg['batchsize'], arg['prefix'], out=io.StringIO())
+            return etl.progress(table, arg['batchsize'], out=sink)
+        return etl.progress(table, arg['batchsize'], arg['prefix'], out=sink)
     if op == 'log_progress':
         kw = {}
         if arg.get('logger') != 'default':    # logger=None: petl's own module logger (INFO records go nowhere)
@@ -417,7 +462,9 @@ def bounds(tier, seed):
             'csv_configurations': len(csv_cfgs(tier)), 'text_configurations': len(text_cfgs(tier, ('x', 'k'))),
             'html_configurations': len(html_cfgs(tier)), 'pickle_configurations': len(pickle_cfgs(tier)),
             'target_kinds': KINDS, 'progress_batchsizes': '1, 2, n, n+1, 1000', 'progress_prefixes': PREFIXES,
-            'progress_sinks': ['out=StringIO', 'out=None (stderr captured)', 'logger given', 'logger=None'],
+            'progress_sinks': ['out=StringIO', 'out=None (stderr captured)', 'out=object with write() only',
+                               'out=object with write()+flush()', 'logger given', 'logger=None'],
+            'csv_dialect_names': ['excel', 'excel-tab', 'unix', 'Dialect subclass'],
             'cache_n': 'None, 1..rows+1', 'cache_pass_patterns': 'all sequences of 1..3 passes, each complete or '
             'abandoned after 0..rows-1 items'}
 
@@ -559,6 +606,9 @@ def _run_pass(acc, lo, hi):
                 wrappers.append(('progress', {'batchsize': b, 'prefix': pf, 'out': 'default'}))
                 wrappers.append(('log_progress', {'batchsize': b, 'prefix': pf}))
                 wrappers.append(('log_progress', {'batchsize': b, 'prefix': pf, 'logger': 'default'}))
+            # kind of the out= sink: an object with write() only, one that also has flush()
+            wrappers.append(('progress', {'batchsize': b, 'out': 'writeonly'}))
+            wrappers.append(('progress', {'batchsize': b, 'out': 'flushable', 'prefix': PREFIXES[1]}))
             wrappers.append(('log_progress', {'batchsize': b, 'level': logging.DEBUG}))
             wrappers.append(('log_progress', {'batchsize': b, 'level': logging.WARNING, 'prefix': PREFIXES[2]}))
         wrappers += [('clock', {}), ('wrap', {})]
